@@ -297,7 +297,7 @@ fn json_case(doc: &str) -> Report {
 fn wasm_inputs_case(prog: &str, inputs: &J) -> Report {
     let mut rep = Report::new();
     rep.stage("wasm evaluate with inputs", || blots_wasm::evaluate(prog, inputs.clone()).is_ok());
-    rep.stage("wasm evaluate_inline_expressions with inputs", || blots_wasm::evaluate_inline_expressions(json!([prog, "f(1)", "a"]), inputs.clone()).is_ok());
+    rep.stage("wasm evaluate_inline_expressions with inputs", || blots_wasm::evaluate_inline_expressions(json!([prog, "f(1)", "a", "f(1) + \"\u{e9}\u{e9}\u{e9}\u{e9}\"", "inputs.f(2)", "\u{1f600}", "[1] via f", "f"]), inputs.clone()).is_ok());
     rep
 }
 
@@ -419,7 +419,12 @@ fn json_documents() -> Vec<String> {
 
 fn wasm_input_cases() -> Vec<(String, J)> {
     let mut out = vec![];
-    let bodies = ["x + 1", "x +", "", " ", "nope", "x => ", "x // c", "\u{e9}", "do { return x }", "x.k.j", "(", "1\n2", "// only a comment"];
+    // (bodies whose evaluation fails far into their own text: an error location that is relative to the
+    // body must never be applied to the calling expression)
+    let bodies = [
+        "x + 1", "x +", "", " ", "nope", "x => ", "x // c", "\u{e9}", "do { return x }", "x.k.j", "(", "1\n2", "// only a comment",
+        "x + 1 + 1 + 1 + 1 + 1 + missing_name_far_away", "[x, x, x, x, x, x, x, x][0] + \"s\"", "\"\u{e9}\u{e9}\u{e9}\u{e9}\u{e9}\u{e9}\" + x", "x * 2 + q", "do {\n  t = x\n  return t + nope_later\n}", "head(3) + x + x + x + x",
+    ];
     for b in bodies {
         let lam = json!({"Lambda": {"name": null, "args": [{"Required": "x"}], "body": b, "scope": null}});
         let lam_scope = json!({"Lambda": {"name": "f", "args": [{"Optional": "x"}, {"Rest": "r"}], "body": b, "scope": {"k": {"Number": 1.0}, "g": {"BuiltIn": "nosuch"}}}});
